@@ -244,7 +244,7 @@ func checkGround(c *fnCase, bounded bool, sets string) string {
 
 func main() {
 	rep := lib.NewReport("C16")
-	rep.Rule = "functions generated from control-flow skeletons (if/else/for/switch/range/goto/return/break/continue/panic, defers anywhere): exhaustive up to a node bound, random beyond; distinct = distinct dumped CFG text; non-trivial = has at least one Defer and one RunDefers"
+	rep.Rule = "functions generated from control-flow skeletons (if/else/for/switch/range/goto/return/break/continue/panic, defers anywhere): exhaustive up to a node bound, random beyond, plus structured families (deep if/else nests, long defer sequences followed by branches, single-block loops); distinct = distinct dumped CFG text; non-trivial = has at least one Defer and one RunDefers"
 	r := lib.Rand("c16")
 	maxExh, nRand, randMax := 4, 1500, 14
 	if lib.Thorough() {
@@ -258,6 +258,23 @@ func main() {
 	for i := 0; i < nRand; i++ {
 		bodies = append(bodies, gen.RandBody(r, 3+r.Intn(randMax), false, 0))
 	}
+	nFam := 800
+	if lib.Thorough() {
+		nFam = 4000
+	}
+	for i := 0; i < nFam; i++ {
+		switch i % 4 {
+		case 3:
+			bodies = append(bodies, gen.SparseNestBody(r, 2+r.Intn(6), 1+r.Intn(2)))
+		case 0:
+			bodies = append(bodies, gen.NestBody(r, 1+r.Intn(6)))
+		case 1:
+			bodies = append(bodies, gen.SeqBody(r, r.Intn(9)))
+		default:
+			bodies = append(bodies, gen.LoopBody(r))
+		}
+	}
+	rep.Extra["family_bodies"] = nFam
 	rep.Extra["exhaustive_bodies"] = nExh
 	rep.Extra["exhaustive_up_to_nodes"] = maxExh
 	rep.Extra["random_bodies"] = nRand
